@@ -48,10 +48,12 @@ class PoseDomain(Domain):
         self.lst = lst
         self.scalars = scalars
 
+    helpers = {}          # nested single-return helpers of the loader: name -> (parameter names, returned expression)
+
     def ev(self, e, env):
         env = dict(env)
         if isinstance(e, ast.Name):
-            return env.get(e.id, ('?' + e.id,))
+            return env.get(e.id, env.get('~' + e.id, ('?' + e.id,)))
         t = src(e).replace(' ', '')
         if t == self.lst + '[-1]':
             return env[self.lst + '[-1]']
@@ -61,6 +63,25 @@ class PoseDomain(Domain):
             return self.ev(e.left, env) + self.ev(e.right, env)
         if isinstance(e, ast.Call) and isinstance(e.func, ast.Attribute) and e.func.attr == 'copy' and not e.args:
             return self.ev(e.func.value, env)
+        # the same product spelled on the 4x4 matrices: tm(A.gTM() @ B.gTM()), tm(np.dot(A.TM, B.TM)), ...
+        if isinstance(e, ast.Call) and isinstance(e.func, ast.Attribute) and e.func.attr in ('gTM', 'getTM') and not e.args:
+            return self.ev(e.func.value, env)
+        if isinstance(e, ast.Attribute) and e.attr == 'TM':
+            return self.ev(e.value, env)
+        if isinstance(e, ast.Call) and src(e.func) in ('np.dot', 'np.matmul', 'numpy.dot', 'numpy.matmul') and len(e.args) == 2 and not e.keywords:
+            return self.ev(e.args[0], env) + self.ev(e.args[1], env)
+        if isinstance(e, ast.Call) and src(e.func) == 'tm' and len(e.args) == 1 and not e.keywords:
+            v = self.ev(e.args[0], env)
+            if not any(x.startswith('?') for x in v):
+                return v
+        if isinstance(e, ast.Call) and isinstance(e.func, ast.Name) and e.func.id in self.helpers and not e.keywords:
+            params, body = self.helpers[e.func.id]
+            if len(params) == len(e.args):
+                env2 = dict(env)
+                for p_, a_ in zip(params, e.args):
+                    env2['~' + p_] = self.ev(a_, env)
+                    env2.pop(p_, None)
+                return self.ev(body, tuple(env2.items()))
         return ('?' + t,)
 
     def transfer(self, stmt, state):
@@ -73,6 +94,13 @@ class PoseDomain(Domain):
                 facts = facts | {('ADVANCED', True)}        # later tests speak about the next element
             if (isinstance(t, ast.Name) and t.id in self.scalars) or tt == self.lst + '[-1]':
                 d[tt] = self.ev(stmt.value, env)
+            elif isinstance(t, ast.Name) and t.id != 'temp_element':
+                # a temporary holding a pose of the iteration is read in place (kept apart from the accumulated poses: '~' keys)
+                v_ = self.ev(stmt.value, env)
+                if not any(x.startswith('?') for x in v_):
+                    d['~' + t.id] = v_
+                else:
+                    d.pop('~' + t.id, None)
             elif isinstance(t, ast.Subscript) and isinstance(t.value, ast.Name) and t.value.id in ('joint_axes', 'joint_homes'):
                 v = stmt.value
                 arg = None
@@ -146,6 +174,12 @@ def pose_walk(load, walk, rep):
                'Arm receives `%s` as its home tool pose, which is not one of the poses accumulated by the walk (%s)' % (run, ', '.join(keys)))
         return res
     dom = PoseDomain(lst, scalars)
+    dom.helpers = {}
+    for n in ast.walk(load.node):
+        if isinstance(n, ast.FunctionDef) and n is not load.node and not n.args.defaults and not n.args.kwonlyargs:
+            body_ = [b_ for b_ in n.body if not (isinstance(b_, ast.Expr) and isinstance(b_.value, ast.Constant))]
+            if len(body_) == 1 and isinstance(body_[0], ast.Return) and body_[0].value is not None:
+                dom.helpers[n.name] = ([a_.arg for a_ in n.args.args], body_[0].value)
     unified = len({init.get(k) for k in keys}) == 1 and None not in {init.get(k) for k in keys}
 
     def go(uni):
@@ -153,7 +187,7 @@ def pose_walk(load, walk, rep):
         ends, brks, exits = Flow(dom).run_loop_body(walk.body, {(env, frozenset(), ())})
         return env, ends
     env0, ends = go(unified)
-    if unified and not all(len({v for k, v in e[0]}) == 1 for e in ends):
+    if unified and not all(len({v for k, v in e[0] if not k.startswith('~')}) == 1 for e in ends):
         unified = False
         env0, ends = go(False)
     old = dict(env0)[run]
